@@ -46,6 +46,7 @@ func main() {
 	r.Register("h", func(a []string) string { return runCase(a, false) })
 	r.Register("hl", func(a []string) string { return runCase(a, true) })
 	r.Register("k6", func(a []string) string { return runHuntCase(a) })
+	r.Register("ka", func(a []string) string { return runHunt4Case(a) })
 	if r.Replayed() {
 		return
 	}
